@@ -93,7 +93,7 @@ func (n *Node) setPath(paths ...string) {
 
 func (n *Node) validatePath() error {
 	invalidChars := "/" // NOTE: ディレクトリ名に含めてはまずそうなものをここに追加する
-	if strings.ContainsAny(n.name, invalidChars) {
+	if n.name == "" || n.name == "." || n.name == ".." || strings.ContainsAny(n.name, invalidChars) {
 		return fmt.Errorf("invalid node name: %s", n.name)
 	}
 	if !fs.ValidPath(n.path()) {
